@@ -41,7 +41,15 @@ let () =
     let lines = impl_lines impl k in
     let monitor = List.exists (fun l -> starts l "MONITOR") lines in
     let diff fmt = Printf.ksprintf (fun s -> Printf.printf "DIFF %d %s\n" k s) fmt in
-    let fail kind fmt = Printf.ksprintf (fun s -> Printf.printf "FAIL %d %s %s\n" k kind s) fmt in
+    (* LEGACY_ORACLES=C02: the engine also runs under property C02 (every legacy reply decoder is
+       memory-safe, leaks nothing and hands out nothing on error); there only those clauses are
+       judged (kinds *-leak, *-records, *-capacity, plus the sanitizers), agreement with the record
+       API is C18's *)
+    let c02_only = (Sys.getenv_opt "LEGACY_ORACLES" = Some "C02") in
+    let ends_with suf s = let n = String.length suf and m = String.length s in m >= n && String.sub s (m - n) n = suf in
+    let fail kind fmt = Printf.ksprintf (fun s ->
+      if (not c02_only) || ends_with "-leak" kind || ends_with "-records" kind || ends_with "-capacity" kind
+      then Printf.printf "FAIL %d %s %s\n" k kind s) fmt in
     try
       (* ---- rebuild the record ---- *)
       let pst = ref None and rcode = ref 0 and qs = ref [] and rrs = ref [] and ancount = ref (-1) in
